@@ -18,17 +18,24 @@ DAClear(a) == [a EXCEPT !.da = <<>>]
 DBEmplace(a, v) == [a EXCEPT !.db = Append(@, v)]          \* the second array, the right-hand side of  da += db
 DBClear(a) == [a EXCEPT !.db = <<>>]
 DAAppend(a) == [a EXCEPT !.da = @ \o a.db]                 \* operator += (array): precondition Len(da) + Len(db) <= CapA
+\* the append operators return the array itself, so appends can be chained in one expression:  (da += v) += w ,  (da += v) += db
+DAChain(a, v, w) == DAEmplace(DAEmplace(a, v), w)
+DAChainArr(a, v) == DAAppend(DAEmplace(a, v))
 VARIABLES a, lastop, before                               \* before: the state before the last operation (history)
 Ops == {[op |-> "sset", i |-> i, v |-> v] : i \in AIdx, v \in ElemVals} \cup {[op |-> "sfill", i |-> 0, v |-> v] : v \in ElemVals}
        \cup {[op |-> "sclear", i |-> 0, v |-> 0], [op |-> "dclear", i |-> 0, v |-> 0]} \cup {[op |-> "demplace", i |-> 0, v |-> v] : v \in ElemVals}
        \cup {[op |-> "dpush", i |-> 0, v |-> v] : v \in ElemVals} \cup {[op |-> "bemplace", i |-> 0, v |-> v] : v \in ElemVals}
        \cup {[op |-> "bclear", i |-> 0, v |-> 0], [op |-> "dappend", i |-> 0, v |-> 0]}
+       \cup {[op |-> "dchain", i |-> w, v |-> v] : v \in ElemVals, w \in ElemVals} \cup {[op |-> "dchaina", i |-> 0, v |-> v] : v \in ElemVals}
 Enabled(x, o) == /\ o.op \in {"demplace", "dpush"} => Len(x.da) < CapA
                  /\ o.op = "bemplace" => Len(x.db) < CapA
                  /\ o.op = "dappend" => Len(x.da) + Len(x.db) <= CapA
+                 /\ o.op = "dchain" => Len(x.da) + 2 <= CapA
+                 /\ o.op = "dchaina" => Len(x.da) + 1 + Len(x.db) <= CapA
 Apply(x, o) == CASE o.op = "sset" -> SASet(x, o.i, o.v) [] o.op = "sfill" -> SAFill(x, o.v) [] o.op = "sclear" -> SAClear(x)
                  [] o.op \in {"demplace", "dpush"} -> DAEmplace(x, o.v) [] o.op = "dclear" -> DAClear(x)
                  [] o.op = "bemplace" -> DBEmplace(x, o.v) [] o.op = "bclear" -> DBClear(x) [] o.op = "dappend" -> DAAppend(x)
+                 [] o.op = "dchain" -> DAChain(x, o.v, o.i) [] o.op = "dchaina" -> DAChainArr(x, o.v)
 Init == a = ARInit /\ lastop = [op |-> "init", i |-> 0, v |-> 0] /\ before = ARInit
 Next == \E o \in Ops : Enabled(a, o) /\ a' = Apply(a, o) /\ lastop' = o /\ before' = a
 InvBounded == Len(a.da) <= CapA /\ Len(a.db) <= CapA
@@ -40,6 +47,8 @@ InvAppend == lastop.op = "dappend" => /\ Len(a.da) = Len(before.da) + Len(before
                                       /\ \A i \in 1 .. Len(before.da) : a.da[i] = before.da[i]
                                       /\ \A i \in 1 .. Len(before.db) : a.da[Len(before.da) + i] = before.db[i]
                                       /\ a.db = before.db /\ a.sa = before.sa
+InvChain == /\ lastop.op = "dchain" => a.da = before.da \o <<lastop.v, lastop.i>>
+            /\ lastop.op = "dchaina" => a.da = Append(before.da, lastop.v) \o before.db /\ a.db = before.db
 InvIndependent == /\ lastop.op \in {"sset", "sfill", "sclear"} => a.da = before.da /\ a.db = before.db
                   /\ lastop.op \in {"demplace", "dpush", "dclear"} => a.sa = before.sa /\ a.db = before.db
                   /\ lastop.op \in {"bemplace", "bclear"} => a.sa = before.sa /\ a.da = before.da
